@@ -75,6 +75,17 @@ Theorem C15_names_unique_per_type_ns :
   In r1 (ents s) -> In r2 (ents s) -> r_ns r1 = r_ns r2 -> r_typ r1 = r_typ r2 -> r_name r1 = r_name r2 -> r1 = r2.
 Proof. exact names_unique_per_type_ns. Qed.
 
+(* ... but uniqueness per type of the NAME alone ("n2:n4" is one name) is REFUTED for the code as it is (finding
+   F-C15b, same root as F-C15a: SaveEntity does not compare the request's entity type with the row's): an edit that
+   carries another type stores that type's namespace id (0) under the unchanged name, after which the key
+   (namespace_id, type, name) admits a second entity of the same type and name through any path that skips
+   checkCreateEntity (an edit/rename, or the first save of a predefined id with create=false). The theorem above is
+   not contradicted: its two rows differ in namespace_id. *)
+Theorem C15_names_unique_per_type_refuted :
+  exists c ops r1 r2, In r1 (ents (run faithful c empty ops)) /\ In r2 (ents (run faithful c empty ops)) /\
+    r_typ r1 = r_typ r2 /\ r_name r1 = r_name r2 /\ r_id r1 <> r_id r2 /\ r_ns r1 <> r_ns r2.
+Proof. exact names_unique_per_type_refuted. Qed.
+
 (* "namespaces cannot be renamed" — REFUTED for the code as it is (finding F-C15a): an edit request that carries
    another entity type (or create=true with a negative id) skips checkNamespace and renames the namespace row. *)
 Theorem C15_namespace_not_renamable_refuted :
